@@ -23,6 +23,7 @@ import ast
 
 from .astutil import call_name, const_str
 from .loader import FuncInfo, norm, parent, walk_own
+from .loader import ancestors as _ancestors
 
 ROLE_CALLS = {
     "get_xpath": "XPATH",
@@ -224,7 +225,7 @@ class Prov:
         self._memo[key] = frozenset({"LIT"})  # cycle guard (x = x + ...)
         if san is not None:
             # definitions before the guarded re-definition are killed for this (truthy) use
-            binds = [b for b in binds if getattr(b[1], "lineno", 0) >= san.lineno]
+            binds = [b for b in binds if (getattr(b[1], "lineno", 0), getattr(b[1], "col_offset", 0)) >= (san.lineno, san.col_offset)]
         for kind, val, idx in binds:
             if kind in ("assign", "aug"):
                 out |= self._component(val, idx, fi, d, env)
@@ -247,7 +248,8 @@ class Prov:
             return None
         for x in walk_own(fi.node):
             if isinstance(x, ast.If) and isinstance(x.test, ast.Name) and x.test.id == name and not x.orelse \
-                    and getattr(x, "end_lineno", 0) <= getattr(use, "lineno", 0):
+                    and (getattr(x, "end_lineno", 0), getattr(x, "end_col_offset", 0)) <= (getattr(use, "lineno", 0), getattr(use, "col_offset", 0)) \
+                    and not any(a is x for a in _ancestors(use)):
                 for st in x.body:
                     if isinstance(st, ast.Assign) and len(st.targets) == 1 and isinstance(st.targets[0], ast.Name) \
                             and st.targets[0].id == name and isinstance(st.value, ast.Call):
